@@ -123,8 +123,200 @@ def native(line):
     return _native.stdout.readline().rstrip("\n")
 
 
+# ---------------------------------------------------------------------------------------------
+# comparison / result classes (sketchcomparison.py, search.py) against the MinHash-level answers
+
+
+def _ci4(r):
+    return f"{ob(r.ani)},{ob(r.ani_low)},{ob(r.ani_high)},{int(r.p_exceeds_threshold)}"
+
+
+def _try(f):
+    try:
+        return f()
+    except Exception as e:      # noqa: BLE001
+        return "E" + exc_name(e)
+
+
+def _csv_presence(result, cols):
+    """write the result through its own csv.DictWriter machinery, read the row back: which ANI cells are non-empty"""
+    import csv
+    import io
+    buf = io.StringIO()
+    wr = result.init_dictwriter(buf)
+    result.write(wr)
+    rows = list(csv.DictReader(io.StringIO(buf.getvalue())))
+    assert len(rows) == 1
+    return "".join("1" if rows[0].get(c, "") != "" else "0" for c in cols), rows[0]
+
+
+PF_COLS = ["query_containment_ani", "match_containment_ani", "average_containment_ani", "max_containment_ani",
+           "query_containment_ani_low", "query_containment_ani_high", "match_containment_ani_low", "match_containment_ani_high"]
+
+
+def classes(w):
+    from sourmash import SourmashSignature
+    from sourmash.sketchcomparison import FracMinHashComparison
+    from sourmash.search import PrefetchResult, GatherResult, SearchResult, SearchType
+    la, lb, cm, xa, xb, sa, sb, k = (int(x) for x in w[1:9])
+    cs = None if w[9] == "-" else int(w[9])
+    ci, conf = w[10] == "1", fl(w[11])
+    if w[10] not in ("0", "1") or k == 0 or sa == 0 or sb == 0 or cm > la or cm > lb or cs == 0:
+        return "bad-op"
+    for t in w[12:]:
+        if t not in ("?", "N") and not t.startswith("E"):
+            int(t)
+    if len(w) != 12 + 17:
+        return "bad-op"
+    cs_eff = cs if cs is not None else max(sa, sb)
+    top = MinHash(n=0, ksize=k, scaled=cs_eff)._max_hash
+    a = MinHash(n=0, ksize=k, scaled=sa)
+    b = MinHash(n=0, ksize=k, scaled=sb)
+    a.add_many(range(1, la + 1))
+    b.add_many(list(range(1, cm + 1)) + list(range(la + 1, la + 1 + lb - cm)))
+    # hashes that only exist at the finer resolution (dropped by the downsampling to the comparison scaled)
+    if sa < cs_eff:
+        a.add_many(range(top + 1, top + 1 + xa))
+    if sb < cs_eff:
+        b.add_many(range(top + 1 + xa, top + 1 + xa + xb))
+    out = []
+    # ---- reference: the MinHash-level methods on the correspondingly downsampled sketches
+    try:
+        ad, bd = a.downsample(scaled=cs_eff), b.downsample(scaled=cs_eff)
+    except Exception as e:      # noqa: BLE001
+        ad = bd = None
+        out.append("ref=E" + exc_name(e))
+    if ad is not None:
+        assert len(ad) == la and len(bd) == lb
+        kw = dict(confidence=conf, estimate_ci=ci)
+        out.append(f"ref.acc={int(ad.size_is_accurate())}{int(bd.size_is_accurate())}")
+        out.append("ref.c12=" + _ci4(ad.containment_ani(bd, **kw)))
+        out.append("ref.c21=" + _ci4(bd.containment_ani(ad, **kw)))
+        out.append("ref.mc=" + _ci4(ad.max_containment_ani(bd, **kw)))
+
+        def jref():
+            r = ad.jaccard_ani(bd)
+            return f"{ob(r.ani)},{int(r.p_exceeds_threshold)},{int(r.je_exceeds_threshold)}"
+        out.append("ref.j=" + _try(jref))
+        out.append("ref.avg=" + ob(ad.avg_containment_ani(bd)))
+    # ---- FracMinHashComparison
+    mk = lambda: FracMinHashComparison(a, b, cmp_scaled=cs, threshold_bp=0, estimate_ani_ci=ci, ani_confidence=conf)   # noqa: E731
+    g = lambda o, n: ob(getattr(o, n, None))        # noqa: E731
+
+    def c12():
+        c = mk(); c.estimate_ani_from_mh1_containment_in_mh2()
+        return f"{g(c, 'ani_from_mh1_containment_in_mh2')},{g(c, 'ani_from_mh1_containment_in_mh2_low')},{g(c, 'ani_from_mh1_containment_in_mh2_high')},{int(c.potential_false_negative)}"
+
+    def c21():
+        c = mk(); c.estimate_ani_from_mh2_containment_in_mh1()
+        return f"{g(c, 'ani_from_mh2_containment_in_mh1')},{g(c, 'ani_from_mh2_containment_in_mh1_low')},{g(c, 'ani_from_mh2_containment_in_mh1_high')},{int(c.potential_false_negative)}"
+
+    def avgp():
+        c = mk(); v = c.avg_containment_ani
+        return f"{ob(v)},{int(c.potential_false_negative)}"
+
+    def allc():
+        c = mk(); c.estimate_all_containment_ani()
+        return f"{g(c, 'ani_from_mh1_containment_in_mh2')},{g(c, 'ani_from_mh2_containment_in_mh1')},{g(c, 'max_containment_ani')},{int(c.potential_false_negative)}"
+
+    def mx():
+        c = mk(); c.estimate_max_containment_ani()
+        return f"{g(c, 'max_containment_ani')},{g(c, 'max_containment_ani_low')},{g(c, 'max_containment_ani_high')},{int(c.potential_false_negative)}"
+
+    def jc():
+        c = mk(); c.estimate_jaccard_ani()
+        return f"{g(c, 'jaccard_ani')},{int(c.potential_false_negative)},{int(c.jaccard_ani_untrustworthy)}"
+
+    out.append("c.c12=" + _try(c12))
+    out.append("c.c21=" + _try(c21))
+    out.append("c.avgp=" + _try(avgp))
+    out.append("c.all=" + _try(allc))
+    out.append("c.mx=" + _try(mx))
+    out.append("c.j=" + _try(jc))
+    out.append("c.sinacc=" + _try(lambda: str(int(mk().size_may_be_inaccurate))))
+    # ---- PrefetchResult / GatherResult / SearchResult
+    qs, ms = SourmashSignature(a, name="q"), SourmashSignature(b, name="m")
+    common_kw = dict(cmp_scaled=cs, estimate_ani_ci=ci, ani_confidence=conf)
+
+    def fields(r, getdict):
+        vals = ",".join(g(r, c) for c in PF_COLS[:4]) + f",{int(r.potential_false_negative)}," + ",".join(g(r, c) for c in PF_COLS[4:])
+        pres, _ = _csv_presence(r, PF_COLS)
+        d = getdict(r)
+        dp = "".join("1" if c in d else "0" for c in PF_COLS)
+        return f"{vals},{pres},{dp}"
+
+    out.append("p=" + _try(lambda: fields(PrefetchResult(qs, ms, threshold_bp=0, **common_kw), lambda r: r.prefetchresultdict)))
+
+    def gather():
+        r = GatherResult(qs, ms, threshold_bp=0, gather_querymh=a.downsample(scaled=cs_eff).flatten() if cs is not None else a.flatten(),
+                         gather_result_rank=0, total_weighted_hashes=len(a), orig_query_len=len(a),
+                         orig_query_abunds={h: 1 for h in a.hashes}, **common_kw)
+        return fields(r, lambda r: r.gatherresultdict)
+    out.append("g=" + _try(gather))
+
+    def search(st, sim):
+        r = SearchResult(qs, ms, similarity=sim(), searchtype=st, threshold_bp=0, **common_kw)
+        pres, _ = _csv_presence(r, ["ani", "ani_low", "ani_high"])
+        return f"{g(r, 'ani')},{g(r, 'ani_low')},{g(r, 'ani_high')},{int(r.potential_false_negative)},{pres}"
+    out.append("s.c=" + _try(lambda: search(SearchType.CONTAINMENT, lambda: ad.contained_by(bd) if ad is not None else 0.5)))
+    out.append("s.m=" + _try(lambda: search(SearchType.MAX_CONTAINMENT, lambda: ad.max_containment(bd) if ad is not None else 0.5)))
+    out.append("s.j=" + _try(lambda: search(SearchType.JACCARD, lambda: ad.jaccard(bd) if ad is not None else 0.5)))
+    return "ok " + " ".join(out)
+
+
+def classes_num(w):
+    """num sketches: ANI does not apply"""
+    from sourmash import SourmashSignature
+    from sourmash.sketchcomparison import NumMinHashComparison
+    from sourmash.search import SearchResult, SearchType
+    la, lb, cm, num, k = (int(x) for x in w[1:6])
+    if num == 0 or k == 0 or cm > la or cm > lb:
+        return "bad-op"
+    a = MinHash(n=num, ksize=k)
+    b = MinHash(n=num, ksize=k)
+    a.add_many(range(1, la + 1))
+    b.add_many(list(range(1, cm + 1)) + list(range(la + 1, la + 1 + lb - cm)))
+
+    def jc():
+        c = NumMinHashComparison(a, b); c.estimate_jaccard_ani()
+        return ob(c.jaccard_ani)
+
+    def sr():
+        r = SearchResult(SourmashSignature(a, name="q"), SourmashSignature(b, name="m"), similarity=a.jaccard(b), searchtype=SearchType.JACCARD)
+        pres, _ = _csv_presence(r, ["ani"])
+        return f"{ob(getattr(r, 'ani', None))},{pres}"
+    return f"ok c.j={_try(jc)} c.sinacc={int(NumMinHashComparison(a, b).size_may_be_inaccurate)} s.j={_try(sr)}"
+
+
+def py_gather(lq, lm, cm, scaled, k, rem, ci, conf):
+    """the Python twin of calculate_gather_stats' ANI fields: search.GatherResult on the same three sketches"""
+    from sourmash import SourmashSignature
+    from sourmash.search import GatherResult
+    a = MinHash(n=0, ksize=k, scaled=scaled)
+    r = MinHash(n=0, ksize=k, scaled=scaled)
+    m = MinHash(n=0, ksize=k, scaled=scaled)
+    a.add_many(range(1, lq + 1))
+    r.add_many(range(rem + 1, lq + 1))
+    m.add_many(list(range(1, cm + 1)) + list(range(lq + 1, lq + 1 + lm - cm)))
+    try:
+        g = GatherResult(SourmashSignature(a, name="q"), SourmashSignature(m, name="m"), threshold_bp=0, cmp_scaled=scaled,
+                         gather_querymh=r, gather_result_rank=0, total_weighted_hashes=lq, orig_query_len=lq,
+                         orig_query_abunds={h: 1 for h in a.hashes}, estimate_ani_ci=bool(ci),
+                         ani_confidence=0.95 if conf is None else conf)
+    except Exception as e:      # noqa: BLE001
+        sys.stderr.write(f"py_gather raised {exc_name(e)}: {e}\n")
+        return ",".join(["N"] * 8)
+    return ",".join(ob(getattr(g, n, None)) for n in (
+        "query_containment_ani", "match_containment_ani", "average_containment_ani", "max_containment_ani",
+        "query_containment_ani_low", "query_containment_ani_high", "match_containment_ani_low", "match_containment_ani_high"))
+
+
 def do(w):
     op = w[0]
+    if op == "cls" and len(w) >= 12:
+        return classes(w)
+    if op == "clsnum" and len(w) == 6:
+        return classes_num(w)
     if op == "nat" and len(w) >= 3:
         if w[1] in ("ci", "inc-ci") and len(w) == 9:
             for t in w[7:9]:
@@ -137,6 +329,16 @@ def do(w):
             return native(" ".join(w[:3]))
         if w[1] in ("ci", "inc-ci", "probit"):
             return "bad-op"
+        if w[1] == "gstats":
+            if len(w) != 22:
+                return "bad-op"
+            for t in w[10:]:
+                if t not in ("?", "N"):
+                    int(t)
+            nat_line = native(" ".join(w[:10]))
+            if not nat_line.startswith("ok "):
+                return nat_line
+            return nat_line + " py=" + py_gather(*(int(x) for x in w[2:9]), ofl(w[9]))
         return native(" ".join(w))
     if op == "pyvar" and len(w) == 4:
         return "ok v=" + bits(du.var_n_mutated(int(w[1]), int(w[2]), fl(w[3])))
